@@ -33,7 +33,15 @@ func MakeFromRequest(r *http.Request) CacheKey {
 	}
 	normHost := strings.ToLower(r.Host)
 	normPath := path.Clean(r.URL.Path)
-	stringKey := fmt.Sprintf("%s|%s|%s|%s|%s", scheme, r.Method, normHost, normPath, r.URL.RawQuery)
+	// path.Clean drops a trailing slash, but "/dir/" and "/dir" are different resources.
+	// A path ending in a dot-segment denotes a directory as well (RFC 3986 5.2.4).
+	p := r.URL.Path
+	if normPath != "/" && (strings.HasSuffix(p, "/") || strings.HasSuffix(p, "/.") || strings.HasSuffix(p, "/..")) {
+		normPath += "/"
+	}
+	// Every component except the last is length-prefixed, so that a separator character
+	// inside a component (e.g. "/a|b?c" vs "/a?b|c") cannot make two different requests collide.
+	stringKey := fmt.Sprintf("%s|%d:%s|%d:%s|%d:%s|%s", scheme, len(r.Method), r.Method, len(normHost), normHost, len(normPath), normPath, r.URL.RawQuery)
 	slog.Debug("Creating cache key", "key", stringKey)
 	return FromString(stringKey)
 }
